@@ -675,3 +675,47 @@ func tailStr(s string, n int) string {
 }
 
 var _ = big.NewInt
+
+// CompileAlone compiles one program's C on its own (no sanitizer, base
+// implementation excluded) to a relocatable object for static inspection.
+func (tl *Tool) CompileAlone(pkg string, csrc []byte) (obj string, cleanup func(), err error) {
+	baseC, _, err := tl.baseCOnly()
+	if err != nil {
+		return "", nil, err
+	}
+	dir, err := os.MkdirTemp(tl.Work, "alone-")
+	if err != nil {
+		return "", nil, err
+	}
+	cleanup = func() { os.RemoveAll(dir) }
+	os.Symlink(baseC, filepath.Join(dir, "wuffs-base.c"))
+	src := filepath.Join(dir, "unit.c")
+	if err := os.WriteFile(src, csrc, 0o644); err != nil {
+		cleanup()
+		return "", nil, err
+	}
+	obj = filepath.Join(dir, "unit.o")
+	args := []string{"-c", "-O1", "-fno-stack-protector", "-w", "-DWUFFS_IMPLEMENTATION", "-DWUFFS_CONFIG__MODULES", "-DWUFFS_CONFIG__MODULE__" + strings.ToUpper(pkg), src, "-o", obj}
+	if o, e := run(dir, 5*time.Minute, "gcc", args...); e != nil {
+		cleanup()
+		return "", nil, &CompileError{Output: string(o)}
+	}
+	return obj, cleanup, nil
+}
+
+// baseCOnly returns the path of wuffs-base.c (generated once per process).
+func (tl *Tool) baseCOnly() (string, string, error) {
+	tl.mu.Lock()
+	defer tl.mu.Unlock()
+	if tl.baseC == "" {
+		out, err := exec.Command(filepath.Join(tl.Bin, "wuffs-c"), "gen", "-package_name", "base").Output()
+		if err != nil {
+			return "", "", fmt.Errorf("wuffs-c gen -package_name base: %v", err)
+		}
+		tl.baseC = filepath.Join(tl.Work, "wuffs-base.c")
+		if err := os.WriteFile(tl.baseC, out, 0o644); err != nil {
+			return "", "", err
+		}
+	}
+	return tl.baseC, "", nil
+}
